@@ -1,0 +1,20 @@
+//go:build verif
+
+package protocol
+
+import "net"
+
+// Exports for the external verification harness (property C07). Add-only.
+
+// VerifC07SessionUser reports the user a server-side session is attributed to: the
+// authenticated user name, the name in the session's policy snapshot, and its peer address.
+func VerifC07SessionUser(c net.Conn) (user, policy string, remote net.Addr, ok bool) {
+	s, isSession := c.(*Session)
+	if !isSession || s == nil {
+		return "", "", nil, false
+	}
+	if p := s.userPolicy.Load(); p != nil {
+		policy = p.Name()
+	}
+	return s.UserName(), policy, s.RemoteAddr(), true
+}
